@@ -7,6 +7,7 @@ import (
 	"go/ast"
 	"go/token"
 	"go/types"
+	"strconv"
 	"strings"
 
 	"golang.org/x/tools/go/cfg"
@@ -46,6 +47,12 @@ func init() {
 			{ID: "C04.h", Title: "TILE-STAGING", Template: "T1+T2+T6", MinInst: 6,
 				Rule: "each sequenced entry is appended to the data tile exactly once per leaf before the index advances; a full data/names tile is staged only on the edge n % TileWidth == 0 (after the increment), for the tile of leaf n-1, with the accumulated bytes, which are then reset; the trailing partial tile is staged only when the round added leaves and n % TileWidth != 0; the accumulator starts from the in-memory partial edge tile",
 				Run:  c04h},
+			{ID: "C04.i", Title: "EDGE-TILES", Template: "T1+T6+T7", MinInst: 8,
+				Rule: "every staged data/names tile is recorded as edge[level] = {tile, accumulator} on all paths from the level assignment to the staging site; staged hash tiles replace the edge tile of their level exactly under the right-most guard (all 18 orderings of presence, N and W); both accumulators start from the partial edge tile of their own level; LoadLog's saved edge tiles obey the same guard",
+				Run:  c04i},
+			{ID: "C04.j", Title: "STAGED-COMPLETE", Template: "T4+T6", MinInst: 7,
+				Rule: "every uploadAction built by the sequencer is appended to the slice serialised by marshalStagedUploads, and the only direct Backend.Upload calls of the sequencer are the staging bundle and the checkpoint",
+				Run:  c04j},
 			{ID: "C04.g", Title: "CONSTANTS", Template: "T5", MinInst: 1,
 				Rule: "TileHeight = 8 = torchwood.TileHeight, TileWidth = 1 << TileHeight", Run: c04g},
 		},
@@ -884,4 +891,437 @@ func accumulatorOf(f *Func, e ast.Expr) types.Object {
 		return nil
 	}
 	return objOf(f.Info(), call.Args[0])
+}
+
+// ---------------------------------------------------------------------------
+// C04.i EDGE-TILES: the in-memory right edge tracks what is staged.
+
+// rightmostGuard evaluates the condition guarding an edge-tile replacement
+// `if old, ok := E[T.L]; COND { E[T.L] = {T, ..} }` over every ordering of
+// (ok, old.N ? T.N, old.W ? T.W) and reports whether it equals the right-most
+// predicate !ok || old.N < T.N || (old.N == T.N && old.W < T.W).
+func rightmostGuard(f *Func, store ast.Node, tile types.Object) (ok bool, why string) {
+	info := f.Info()
+	var ifs *ast.IfStmt
+	ast.Inspect(f.Top().Body, func(n ast.Node) bool {
+		if is, isIf := n.(*ast.IfStmt); isIf && is.Body.Pos() <= store.Pos() && store.End() <= is.Body.End() {
+			ifs = is // innermost wins: Inspect visits outer first
+		}
+		return true
+	})
+	if ifs == nil {
+		return false, "the replacement is unconditional"
+	}
+	as, isAs := ifs.Init.(*ast.AssignStmt)
+	if !isAs || len(as.Lhs) != 2 || len(as.Rhs) != 1 {
+		return false, "the guard does not look up the current edge tile (old, ok := edge[level])"
+	}
+	oldObj, okObj := objOf(info, as.Lhs[0]), objOf(info, as.Lhs[1])
+	if oldObj == nil || okObj == nil {
+		return false, "the guard does not bind the current edge tile and its presence"
+	}
+	fieldOf := func(root types.Object, name string) func(ast.Expr) bool {
+		return func(e ast.Expr) bool {
+			r, p, okp := fieldPath(info, e)
+			if !okp || r != root || len(p) == 0 || p[len(p)-1] != name {
+				return false
+			}
+			return len(p) <= 2
+		}
+	}
+	rels := []int{relLT, relEQ, relGT}
+	for _, present := range []bool{false, true} {
+		for _, rn := range rels {
+			for _, rw := range rels {
+				env := func(e ast.Expr) Tri {
+					if objOf(info, e) == okObj {
+						if present {
+							return True
+						}
+						return False
+					}
+					at := Atom{E: e, Val: true}
+					if set, isCmp := cmpRel(at, fieldOf(oldObj, "N"), fieldOf(tile, "N")); isCmp {
+						if set&rn != 0 {
+							return True
+						}
+						return False
+					}
+					if set, isCmp := cmpRel(at, fieldOf(oldObj, "W"), fieldOf(tile, "W")); isCmp {
+						if set&rw != 0 {
+							return True
+						}
+						return False
+					}
+					return Unknown
+				}
+				want := !present || rn == relLT || (rn == relEQ && rw == relLT)
+				if !present {
+					// with no current tile the zero value's fields are not meaningful:
+					// only the outcome matters, whatever the comparisons say
+				}
+				got := evalCond(ifs.Cond, env)
+				if (want && got != True) || (!want && got != False) {
+					return false, fmt.Sprintf("with present=%v, N %s, W %s the guard is %v, the right-most rule says %v", present, relName(rn), relName(rw), triName(got), want)
+				}
+			}
+		}
+	}
+	return true, ""
+}
+
+func relName(r int) string {
+	return map[int]string{relLT: "older<new", relEQ: "older==new", relGT: "older>new"}[r]
+}
+
+func triName(t Tri) string {
+	return map[Tri]string{True: "true", False: "false", Unknown: "undetermined"}[t]
+}
+
+// edgeStore describes an assignment E[idx] = tileWithBytes{tile, bytes}.
+type edgeStore struct {
+	site  Site
+	index ast.Expr
+	tile  types.Object
+	bytes ast.Expr
+}
+
+func edgeStores(f *Func, isEdge func(ast.Expr) bool) []edgeStore {
+	info := f.Info()
+	var out []edgeStore
+	for _, s := range f.Find(func(n ast.Node) bool { _, ok := n.(*ast.AssignStmt); return ok }) {
+		as := s.X.(*ast.AssignStmt)
+		if len(as.Lhs) != 1 || len(as.Rhs) != 1 {
+			continue
+		}
+		ix, ok := ast.Unparen(as.Lhs[0]).(*ast.IndexExpr)
+		if !ok || !isEdge(ix.X) {
+			continue
+		}
+		es := edgeStore{site: s, index: ix.Index}
+		if cl, isCl := ast.Unparen(as.Rhs[0]).(*ast.CompositeLit); isCl {
+			if t := compositeField(info, cl, "Tile", 0); t != nil {
+				es.tile = objOf(info, t)
+			}
+			es.bytes = compositeField(info, cl, "B", 1)
+		}
+		out = append(out, es)
+	}
+	return out
+}
+
+func c04i(c *Ctx) {
+	for _, f := range sequencers(c.P) {
+		c.touch(f)
+		info := f.Info()
+		g := f.Graph()
+		// the working edge map: the value stored to l.edgeTiles
+		var edge types.Object
+		fv := c.P.fieldVar(pkgCtlog, "Log", "edgeTiles")
+		for _, st := range f.StoresTo(fv) {
+			if st.Direct && st.Rhs != nil {
+				edge = objOf(info, st.Rhs)
+			}
+		}
+		if edge == nil {
+			c.Unk(f.Name+" edge map", "the value committed to the Log's edge tiles was not found")
+			continue
+		}
+		isEdge := func(e ast.Expr) bool { return objOf(info, e) == edge }
+		stores := edgeStores(f, isEdge)
+		// staged tiles
+		for _, s := range f.Find(func(n ast.Node) bool {
+			cl, ok := n.(*ast.CompositeLit)
+			if !ok {
+				return false
+			}
+			tv, ok := info.Types[cl]
+			return ok && namedIs(tv.Type, pkgCtlog, "uploadAction")
+		}) {
+			cl := s.X.(*ast.CompositeLit)
+			key := compositeField(info, cl, "key", 0)
+			call, ok := f.IsCallResult(key, -1, Callee{pkgRoot, "", "TilePath"})
+			if !ok {
+				continue
+			}
+			tile := objOf(info, call.Args[0])
+			lvl := tileLevelAt(f, tile, s)
+			data := compositeField(info, cl, "data", 1)
+			switch lvl {
+			case "-1", "-2":
+				name := map[string]string{"-1": "data", "-2": "names"}[lvl]
+				inst := fmt.Sprintf("%s %s tile staged in loop=%v tracked by edge", f.Name, name, insideLoop(f, cl))
+				acc := accumulatorOf(f, data)
+				want, _ := strconv.Atoi(lvl)
+				var match []Site
+				for _, es := range stores {
+					if v, isC := constInt(info, es.index); isC && int(v) == want && es.tile == tile && acc != nil && es.bytes != nil && objOf(info, es.bytes) == acc {
+						match = append(match, es.site)
+					}
+				}
+				if insideLoop(f, cl) {
+					// a full tile is never extended: forgetting it is as good as recording it
+					for _, d := range f.Find(func(n ast.Node) bool {
+						call, ok := n.(*ast.CallExpr)
+						return ok && isBuiltinCall(info, call, "delete") && len(call.Args) == 2
+					}) {
+						if v, isC := constInt(info, d.Call.Args[1]); isC && int(v) == want && isEdge(d.Call.Args[0]) {
+							match = append(match, d)
+						}
+					}
+				}
+				// level-setting stores of the tile that reach the staging site
+				var from []Site
+				for _, a := range f.Find(func(n ast.Node) bool { _, ok := n.(*ast.AssignStmt); return ok }) {
+					as := a.X.(*ast.AssignStmt)
+					for i, l := range as.Lhs {
+						r, p, okp := fieldPath(info, l)
+						if okp && r == tile && len(p) == 1 && p[0] == "L" && i < len(as.Rhs) {
+							if v, isC := constInt(info, as.Rhs[i]); isC && int(v) == want {
+								from = append(from, a)
+							}
+						}
+					}
+				}
+				if len(match) == 0 {
+					c.Bad(inst, s.Pos(), fmt.Sprintf("no edge[%s] = {tile, %s bytes} store (or, for a full tile, delete) accompanies this staged %s tile: the next round would extend a stale right-edge %s tile", lvl, name, name, name))
+					continue
+				}
+				if len(from) == 0 {
+					c.Unk(inst, "the level assignment of the staged tile was not found")
+					continue
+				}
+				stop := func(p Point, _ ast.Node) bool {
+					for _, m := range match {
+						if m.P == p {
+							return true
+						}
+					}
+					return false
+				}
+				bad := false
+				for _, a := range from {
+					if pt, path := g.Reach(a.After(), Cut{Stop: stop}, atSite(s)); pt != nil {
+						c.Bad(inst, s.Pos(), fmt.Sprintf("the %s tile can be staged without recording it as the in-memory right-edge %s tile (path %s)", name, name, g.describePath(path)))
+						bad = true
+						break
+					}
+				}
+				if !bad {
+					var w []Witness
+					for _, m := range match {
+						w = append(w, f.WitDelete(m.Node))
+					}
+					c.add(Result{Instance: inst, Verdict: Discharged, Evals: len(from), Sites: []string{s.Pos()}, Detail: fmt.Sprintf("every path from tile.L = %s to the staging site passes edge[%s] = {tile, accumulator}", lvl, lvl), Witnesses: w})
+				}
+			case "hash":
+				inst := f.Name + " hash tile tracked by edge"
+				var match *edgeStore
+				for i, es := range stores {
+					r, p, okp := fieldPath(info, es.index)
+					if okp && r == tile && len(p) == 1 && p[0] == "L" && es.tile == tile && es.bytes != nil && data != nil && f.SameValue(es.bytes, data) {
+						match = &stores[i]
+					}
+				}
+				if match == nil {
+					c.Bad(inst, s.Pos(), "no edge[tile.L] = {tile, data} store accompanies the staged hash tile: later rounds and proofs would read stale right-edge hashes")
+					continue
+				}
+				if ok, why := rightmostGuard(f, match.site.Node, tile); !ok {
+					c.Bad(inst, match.site.Pos(), "the right-edge hash tile is not replaced exactly when the new tile is further right: "+why)
+					continue
+				}
+				c.add(Result{Instance: inst, Verdict: Discharged, Evals: 18, Sites: []string{match.site.Pos()}, Detail: "edge[tile.L] = {tile, data} under !ok || old.N < tile.N || (old.N == tile.N && old.W < tile.W), evaluated over all 18 orderings"})
+			}
+		}
+		// the accumulators start from the partial edge tile of their own level
+		for _, lvl := range []int{-1, -2} {
+			name := map[int]string{-1: "data", -2: "names"}[lvl]
+			inst := fmt.Sprintf("%s %s accumulator start", f.Name, name)
+			found := false
+			for _, a := range f.Find(func(n ast.Node) bool { _, ok := n.(*ast.AssignStmt); return ok }) {
+				as := a.X.(*ast.AssignStmt)
+				if len(as.Lhs) != 1 || len(as.Rhs) != 1 {
+					continue
+				}
+				call, ok := ast.Unparen(as.Rhs[0]).(*ast.CallExpr)
+				if !ok || !matchCallee(info, call, Callee{"bytes", "", "Clone"}) || len(call.Args) != 1 {
+					continue
+				}
+				r, p, okp := fieldPath(info, call.Args[0])
+				if !okp || len(p) != 1 || p[0] != "B" {
+					continue
+				}
+				for _, rd := range f.Defs(r) {
+					ix, isIx := ast.Unparen(rd.Rhs).(*ast.IndexExpr)
+					if !isIx || !isEdge(ix.X) {
+						continue
+					}
+					if v, isC := constInt(info, ix.Index); !isC || int(v) != lvl {
+						continue
+					}
+					// the accumulator assigned must be the one staged at this level
+					accObj := objOf(info, as.Lhs[0])
+					stagedAcc := false
+					for _, es := range stores {
+						if v, isC := constInt(info, es.index); isC && int(v) == lvl && es.bytes != nil && objOf(info, es.bytes) == accObj {
+							stagedAcc = true
+						}
+					}
+					if !stagedAcc {
+						continue
+					}
+					isW := func(e ast.Expr) bool {
+						rr, pp, okk := fieldPath(info, e)
+						return okk && rr == r && len(pp) >= 1 && pp[len(pp)-1] == "W"
+					}
+					isTW := func(e ast.Expr) bool { x, isK := constInt(info, e); return isK && x == 256 }
+					part := g.EdgesImplying(func(at Atom) bool { rel, okc := cmpRel(at, isW, isTW); return okc && rel == relLT })
+					if len(part) == 0 {
+						continue
+					}
+					if pt, _ := g.ReachableFromEntry(Cut{Edges: part}, atSite(a)); pt == nil {
+						found = true
+						c.add(Result{Instance: inst, Verdict: Discharged, Evals: 1, Sites: []string{a.Pos()}, Detail: fmt.Sprintf("the %s accumulator starts as a copy of edge[%d].B, only when that tile is partial", name, lvl), Witnesses: f.WitEdges(part)})
+					}
+				}
+			}
+			if !found {
+				c.Bad(inst, f.Pos(f.Decl), fmt.Sprintf("the %s-tile accumulator does not start from the partial right-edge tile of level %d (guarded by W < TileWidth): the staged tile would drop or repeat entries", name, lvl))
+			}
+		}
+	}
+	// LoadLog: the edge tiles saved while reading the right edge are the right-most ones
+	if f := c.Fn("ctlog.LoadLog"); f != nil {
+		info := f.Info()
+		var edge types.Object
+		for _, lit := range f.Find(func(n ast.Node) bool {
+			cl, ok := n.(*ast.CompositeLit)
+			if !ok {
+				return false
+			}
+			tv, ok := info.Types[cl]
+			return ok && namedIs(tv.Type, pkgCtlog, "Log")
+		}) {
+			if e := compositeField(info, lit.X.(*ast.CompositeLit), "edgeTiles", -1); e != nil {
+				edge = objOf(info, e)
+			}
+		}
+		inst := "ctlog.LoadLog saved edge tiles are right-most"
+		if edge == nil {
+			c.Unk(inst, "the edge map handed to the Log was not found")
+			return
+		}
+		n := 0
+		for _, lf := range f.Lits {
+			for _, es := range edgeStores(lf, func(e ast.Expr) bool { return objOf(info, e) == edge }) {
+				r, p, okp := fieldPath(info, es.index)
+				if !okp || es.tile == nil || r != es.tile || len(p) != 1 || p[0] != "L" {
+					c.Bad(inst, es.site.Pos(), "an edge tile is saved under a level other than its own")
+					n++
+					continue
+				}
+				n++
+				if ok, why := rightmostGuard(lf, es.site.Node, es.tile); !ok {
+					c.Bad(inst, es.site.Pos(), "the saved edge tile is not replaced exactly when the new tile is further right: "+why)
+				} else {
+					c.add(Result{Instance: inst, Verdict: Discharged, Evals: 18, Sites: []string{es.site.Pos()}, Detail: "edge[tile.L] = {tile, data} under the right-most guard, evaluated over all 18 orderings"})
+				}
+			}
+		}
+		if n == 0 {
+			c.Unk(inst, "no edge-tile store found in LoadLog's tile reader callbacks")
+		}
+	}
+}
+
+func insideLoop(f *Func, n ast.Node) bool {
+	in := false
+	ast.Inspect(f.Body, func(x ast.Node) bool {
+		switch l := x.(type) {
+		case *ast.RangeStmt:
+			if l.Body.Pos() <= n.Pos() && n.End() <= l.Body.End() {
+				in = true
+			}
+		case *ast.ForStmt:
+			if l.Body.Pos() <= n.Pos() && n.End() <= l.Body.End() {
+				in = true
+			}
+		}
+		return true
+	})
+	return in
+}
+
+// ---------------------------------------------------------------------------
+// C04.j STAGED-COMPLETE: every object a round writes is in the staging bundle.
+
+func c04j(c *Ctx) {
+	for _, f := range sequencers(c.P) {
+		c.touch(f)
+		info := f.Info()
+		var bundle types.Object
+		for _, m := range f.Calls(specMarshalStaged) {
+			if len(m.Call.Args) == 1 {
+				bundle = objOf(info, m.Call.Args[0])
+			}
+		}
+		if bundle == nil {
+			c.Unk(f.Name+" bundle", "the slice given to marshalStagedUploads was not found")
+			continue
+		}
+		// every uploadAction built by the round is appended to the bundle slice
+		nLit := 0
+		for _, s := range f.Find(func(n ast.Node) bool {
+			cl, ok := n.(*ast.CompositeLit)
+			if !ok {
+				return false
+			}
+			tv, ok := info.Types[cl]
+			return ok && namedIs(tv.Type, pkgCtlog, "uploadAction")
+		}) {
+			nLit++
+			inst := fmt.Sprintf("%s upload action #%d in the bundle", f.Name, nLit)
+			okApp := false
+			if as, isAs := s.Node.(*ast.AssignStmt); isAs && len(as.Lhs) == 1 && len(as.Rhs) == 1 && objOf(info, as.Lhs[0]) == bundle {
+				if call, isCall := ast.Unparen(as.Rhs[0]).(*ast.CallExpr); isCall && isBuiltinCall(info, call, "append") && len(call.Args) >= 2 && objOf(info, call.Args[0]) == bundle {
+					for _, a := range call.Args[1:] {
+						x := ast.Unparen(a)
+						if u, isU := x.(*ast.UnaryExpr); isU && u.Op == token.AND {
+							x = ast.Unparen(u.X)
+						}
+						if x == s.X {
+							okApp = true
+						}
+					}
+				}
+			}
+			if okApp {
+				c.OK(inst, "appended to the slice that marshalStagedUploads serialises", []string{s.Pos()})
+			} else {
+				c.Bad(inst, s.Pos(), "a tile built by the round is not appended to the slice serialised into the staging bundle: after a crash between the lock commit and its upload nothing can recreate it")
+			}
+		}
+		if nLit == 0 {
+			c.Unk(f.Name+" bundle", "no uploadAction literal found in the sequencer")
+		}
+		// the only direct uploads of the round are the staging bundle and the checkpoint
+		for _, s := range f.CallsWDeep(specUpload) {
+			k := argByName(s.F.Info(), s.Call, "key")
+			inst := fmt.Sprintf("%s direct upload %s", f.Name, exprString(orEmpty(k)))
+			if k == nil {
+				c.Unk(inst, "upload key not found at "+s.Pos())
+				continue
+			}
+			if v, isC := constString(s.F.Info(), k); isC && v == "checkpoint" {
+				c.OK(inst, "the checkpoint publication", []string{s.Pos()})
+				continue
+			}
+			if _, isSt := s.F.IsCallResult(k, -1, specStagingPath); isSt {
+				c.OK(inst, "the staging bundle", []string{s.Pos()})
+				continue
+			}
+			c.Bad(inst, s.Pos(), "the round writes an object directly instead of through the staging bundle (applyStagedUploads): a crash after the lock commit loses it, and LoadLog cannot recreate it")
+		}
+	}
 }
